@@ -36,6 +36,8 @@ structure FI (ex : Option Nat) (pf : List Nat) (s : BSt) : Prop where
   flg : ∀ f ∈ s.flags, (∃ i, ∃ st ∈ (s.th i).popped, st.kind = .flush f) ∨
       (∃ i, ∃ st ∈ (s.th i).accepted, st.kind = .removal f)
   flgP : ∀ f ∈ pf, ∃ i, ∃ st ∈ (s.th i).popped, st.kind = .flush f
+  /-- conversely: the flag of every popped Flush statement is raised (or about to be: `pf`) -/
+  popFlag : ∀ i, ∀ st ∈ (s.th i).popped, ∀ f, st.kind = .flush f → f ∈ s.flags ∨ f ∈ pf
   rem : ∀ gf ∈ s.removalFlags, ∃ i, ∃ st ∈ (s.th i).accepted, st.kind = .removal gf.2
   accLt : ∀ i, ∀ f ∈ flagsIn (s.th i).accepted, f < s.nextFlag
   accNodup : ∀ i, (flagsIn (s.th i).accepted).Nodup
@@ -80,6 +82,7 @@ theorem FI.same {ex pf} {s s' : BSt} (h : FI ex pf s) (hs : Same2 s s') : FI ex 
   flgP := fun f hf => by
     obtain ⟨i, st, h1, h2⟩ := h.flgP f hf
     exact ⟨i, st, by rw [(hs.th i).pop]; exact h1, h2⟩
+  popFlag := fun i => by rw [(hs.th i).pop, hs.flags]; exact h.popFlag i
   rem := fun gf hgf => by
     rw [hs.rem] at hgf
     obtain ⟨i, st, h1, h2⟩ := h.rem gf hgf
